@@ -105,3 +105,44 @@ func VerifC02b() {
 		v.Assert(parent.Writes == nparent, "iter-does-not-write")
 	}
 }
+
+// VerifC02nested: a prefix view of a prefix view. Through NewStore(NewStore(parent, p1), p2) every
+// point operation touches exactly p1‖p2‖key in the parent (arbitrary 1-byte p1, p2, 0..1-byte key),
+// reads see exactly that entry, and nothing else in the parent changes.
+func VerifC02nested() {
+	p1, p2 := v.Bytes(1), v.Bytes(1)
+	parent := modelkv.New()
+	for i := 0; i < 2; i++ {
+		parent.SetRaw(v.Bytes(2+v.Choice(2)), []byte{byte(i + 1)})
+	}
+	before := parent.Snapshot()
+	inner := NewStore(NewStore(parent, p1), p2)
+	key := v.Bytes(v.Choice(2))
+	full := append(append(append([]byte{}, p1...), p2...), key...)
+	switch v.Choice(3) {
+	case 0:
+		got, _ := inner.Get(key)
+		want := parent.GetRaw(full)
+		v.Assert(v.And((got == nil) == (want == nil), bytes.Equal(got, want)), "nested-get")
+		has, _ := inner.Has(key)
+		v.Assert(has == (want != nil), "nested-has")
+	case 1:
+		val := v.Bytes(1)
+		_ = inner.Set(key, val)
+		v.Assert(bytes.Equal(parent.GetRaw(full), val), "nested-set-writes-p1-p2-key")
+		for _, it := range before {
+			if !bytes.Equal(it.K, full) {
+				v.Assert(bytes.Equal(parent.GetRaw(it.K), it.V), "nested-set-leaves-others")
+			}
+		}
+		v.Assert(len(parent.Items) <= len(before)+1, "nested-set-adds-at-most-one")
+	case 2:
+		_ = inner.Delete(key)
+		v.Assert(parent.GetRaw(full) == nil, "nested-delete-removes-p1-p2-key")
+		for _, it := range before {
+			if !bytes.Equal(it.K, full) {
+				v.Assert(bytes.Equal(parent.GetRaw(it.K), it.V), "nested-delete-leaves-others")
+			}
+		}
+	}
+}
